@@ -684,6 +684,13 @@ func buildOracle(c *pcase) string {
 			if a, ok := v.Build().([4]byte); ok {
 				strs[string(a[:])] = true
 			}
+			if v.K == "bs" {
+				// bytes printed one by one as integers (%U, %q, %c of a byte slice)
+				for _, b := range []byte(v.S) {
+					ints[int64(b)] = true
+				}
+				ints[0] = true
+			}
 		case "i":
 			ints[v.I] = true
 			if v.I >= 0 && v.I <= 1000000 {
@@ -691,6 +698,8 @@ func buildOracle(c *pcase) string {
 			}
 		case "u":
 			ints[int64(v.U)] = true
+		case "usr":
+			ints[int64(v.ID)] = true // the ID field, when a bad verb dumps the value's own fields
 		case "safe":
 			func() {
 				defer func() { _ = recover() }()
